@@ -365,7 +365,18 @@ def _discharge_ring(self, ob, dom):
                 tk.add(h[1].key())
         F = [f for f in F if f.key() not in tk]
         t1 = _t.time()
-        new, nc = theory_check(T, F)
+        hubs = None
+        run_ = getattr(ob, "run", None)
+        if run_ is not None:
+            hubs = getattr(run_, "_global_atoms", None)
+            if hubs is None:
+                hubs = set()
+                for (o_, p_), v_ in list(run_.old_mem.items()):
+                    info_ = run_.objs.get(o_)
+                    if info_ is not None and info_.origin == "global" and hasattr(v_, "poly"):
+                        hubs |= v_.poly.atoms()
+                run_._global_atoms = hubs
+        new, nc = theory_check(T, F, hubs=hubs)
         if os.environ.get("GOVC_DEBUG_RING"):
             print("ROUND", rounds, ob.name, "T=%d F=%d -> %d lemmas in %.1fs" % (len(T), len(F), len(new), _t.time() - t1))
             for x in T:
